@@ -32,6 +32,7 @@ P = {'id': 'C10',
               'strvec_sort_is_sorted_perm',
               'strvec_sort_by_is_sorted_perm',
               'strvec_sort_by_length_is_sorted_perm',
+              'strvec_radix_sort_is_sorted_perm',
               'strvec_long_string_refuted',
               'fixedlen_refines_list',
               'fixedlen_get_pushes',
@@ -51,7 +52,7 @@ P = {'id': 'C10',
              'larger_capacity / calculate_new_capacity / reserve / grow_to, push / push_panic / push_slow, pop, get, set, clear, extend_from_slice, '
              'extend_from_slice_copy, push_n_copy incl. the doubling copy, Clone, Drop); src/containers/specialized/sortable_str_vec.rs '
              'SortableStrVec (CompactEntry packing and accessors with the field widths regenerated from the source by the constant extractor, '
-             'push_str / push, get / get_by_id, len, iter, clear, Clone, sort_lexicographic / sort (debug-assertions path), sort_by, sort_by_length, '
+             'push_str / push, get / get_by_id, len, iter, clear, Clone, sort_lexicographic / sort (debug-assertions path), sort_by, sort_by_length, radix_sort (MSD radix; its counting-sort loop modelled by its result), '
              'get_sorted, iter_sorted; slice::sort_unstable_by is a parameter); src/containers/specialized/fixed_len_str_vec.rs FixedLenStrVec<N> '
              '(push with its three refusals, 24+8-bit index packing, get with str::from_utf8, get_bytes, len, find_exact, count_prefix - the code '
              'compiled with the default feature simd); src/containers/fast_vec.rs the paths taken by Copy element types (is_simd_beneficial '
@@ -61,7 +62,7 @@ P = {'id': 'C10',
              'spec-only cells (shadow Vec/VecDeque oracle with per-id live-instance counting, no mechanism model): '
              'memory::cache::CacheAlignedVec<El>/<u8>, cache_layout::CacheAlignedVec<u64>, BumpVec<El>, MmapVec<u64> (push, pop, resize, truncate, '
              'clear, extend, push_bulk_simd, pop_bulk_simd, fill_range_simd, copy_from_simd, reserve, shrink_to_fit), ZoSortedStrVec (three '
-             'constructors), BitPackedStringVec32/64, AdvancedStringVec levels 0..3; oracle-only inside modelled cells: SortableStrVec::radix_sort, '
+             'constructors), BitPackedStringVec32/64, AdvancedStringVec levels 0..3; oracle-only inside modelled cells: SortableStrVec::binary_search, '
              'the u32::MAX probe of ValVec32 on zero-sized elements, the 2^24-byte arena probe of FixedLenStrVec, the child-process probe of the '
              'FastVec operations that aborted the process',
              'not covered: src/containers/specialized/circular_queue_ultrafast.rs is not part of the crate (no `mod` declaration; it uses '
@@ -91,7 +92,7 @@ P = {'id': 'C10',
                'refutation theorems. SortableStrVec: the packed (offset, length, seq) entries with the field widths taken from the source read back '
                'what was packed, get i is the i-th pushed string, a push is refused exactly when a field would overflow, and for every sorting '
                'routine meeting the contract of sort_unstable_by the sorted view is the (unique) lexicographically sorted permutation of the pushed '
-               'strings while the strings themselves are untouched; likewise sort_by and sort_by_length. FixedLenStrVec<N>: get i is the i-th pushed '
+               'strings while the strings themselves are untouched; likewise sort_by, sort_by_length and radix_sort. FixedLenStrVec<N>: get i is the i-th pushed '
                'string byte for byte (no padding, NUL kept), refusal exactly beyond N / 255 bytes / 2^24 arena bytes, find_exact and count_prefix '
                'are first-index and prefix-count. FastVec for Copy types: the SIMD / bulk paths are, for every element size and every kernel meeting '
                'its contract, the list functions of the scalar path (same value, len, capacity and buffer), fill_range_fast and copy_from_slice_fast '
